@@ -161,8 +161,13 @@ class World:
                 a, b = r.sample(sel, 2)
                 order.insert(r.randrange(0, len(order) + 1), [a, b])
         additional = []
-        if r.random() < 0.4 and len(names) >= 2:
-            additional.append(r.sample(names, 2))
+        if r.random() < 0.55 and len(names) >= 2:
+            # several additional sets (single sources and pairs) in random order: more than one can be a subset of a
+            # peptide's source set, the first one listed must win
+            for _ in range(r.randrange(1, 4)):
+                a = sorted(r.sample(names, r.choice([1, 2, 2])))
+                if a not in additional:
+                    additional.append(a)
         return dict(order=order, group=group, maxGroups=r.choice([1, 1, 2, 3]), additional=additional)
 
 
